@@ -73,9 +73,8 @@ tapkee::DenseMatrix read_data(ifstream& ifs, char delimiter)
 {
     string str;
     vector<vector<tapkee::ScalarType>> input_data;
-    while (ifs)
+    while (getline(ifs, str))
     {
-        getline(ifs, str);
 
         // if (find_if(str.begin(), str.end(), is_wrong_char) != str.end())
         //	throw std::runtime_error("Input file contains some junk, please check it");
